@@ -19,7 +19,7 @@ import (
 )
 
 func TestMain(m *testing.M) {
-	vh.Rule("rapid: histories of 1..6 request/response rounds on one channel (packet level, deterministic); per round a response from the grammar (empty of delivered packages, rows, several result sets with DONE(MORE), trailing DONE with COUNT/PROC/ERROR/INXACT bits, EED interleaved, final DONE by the server, a non-final DONE, or none), a packetisation, an optional request sent before it, and a consumer strategy: NextPackage until the final DONE, or NextPackageUntil with a per-package plan of callback results (continue, true, io.EOF, another error, an error that wraps io.EOF) or a nil callback. Oracle: a model holds the expected consumer view of every round; the consumer must see exactly that (one DONE with final status, last), a callback error must come back (errors.Is) with the queue empty afterwards, nothing may be left over or duplicated into the next round; a 2 s watchdog only fires if the final DONE is missing. Non-trivial: >= 2 rounds and (the previous round ended with a server DONE(FINAL), or the callback aborted early, or the response spans several packets); distinct by the history")
+	vh.Rule("rapid: histories of 1..6 request/response rounds on one channel (packet level, deterministic); per round a response from the grammar (empty of delivered packages, rows, several result sets with DONE(MORE), trailing DONE with COUNT/PROC/ERROR/INXACT bits, EED interleaved, final DONE by the server, a non-final DONE, or none), a packetisation (optionally with extra status bits next to EOM), an optional request sent before it or completing only after the first response packets have arrived, and a consumer strategy: NextPackage until the final DONE, or NextPackageUntil with a per-package plan of callback results (continue, true, io.EOF, another error, an error that wraps io.EOF) or a nil callback. Oracle: a model holds the expected consumer view of every round; the consumer must see exactly that (one DONE with final status, last), a callback error must come back (errors.Is) with the queue empty afterwards, nothing may be left over or duplicated into the next round; a 2 s watchdog only fires if the final DONE is missing. Non-trivial: >= 2 rounds and (the previous round ended with a server DONE(FINAL), or the callback aborted early, or the response spans several packets); distinct by the history")
 	vh.Assume("a DONE-family package with status 0 only ends a response; all packets of a response are delivered before the consumer reads (the concurrent case is C12/C13); non-informational EED only between statements")
 	vh.Main(m, "C03")
 }
@@ -30,6 +30,12 @@ type round struct {
 	Strategy string `json:"strategy"` // next | until | nilcb
 	Plan     []int  `json:"plan"`     // per callback invocation: 0 continue, 1 true, 2 io.EOF, 3 error, 4 error wrapping io.EOF
 	Send     bool   `json:"send_before"`
+	// SendAfter > 0: the request completes only after that many response packets have
+	// already arrived (a fast server answers while the last request packet is still being
+	// written); requires Send
+	SendAfter int `json:"send_after_packets,omitempty"`
+	// Extra status bits OR-ed into the packet headers (ATTNACK 0x02, EVENT 0x08), cycled
+	Extra []int `json:"extra_status_bits,omitempty"`
 }
 
 type c03Case struct {
@@ -80,17 +86,35 @@ func runCase(c c03Case) (f *vh.Failure) {
 	nontrivial := false
 	for ri, r := range c.Rounds {
 		where := fmt.Sprintf("round %d/%d [%s] cuts %v strategy %s plan %v", ri+1, len(c.Rounds), respgen.Describe(r.Pkgs), r.Cuts, r.Strategy, r.Plan)
-		if r.Send {
+		send := func() *vh.Failure {
 			if err := ch.SendPackage(bg, &tds.LanguagePackage{Cmd: "select 1"}); err != nil {
 				return vh.Failf("C03/send-error", "%s: SendPackage: %v", where, err)
+			}
+			return nil
+		}
+		if r.Send && r.SendAfter == 0 {
+			if f := send(); f != nil {
+				return f
 			}
 		}
 		stream, _, _, err := rc.EncodeStream(r.Pkgs)
 		if err != nil {
 			vh.HarnessBug("encode: %v", err)
 		}
-		for _, p := range rc.Packetise(stream, r.Cuts, rc.BufResponse, 0) {
-			ch.WritePacket(&tds.Packet{Header: tds.PacketHeader{MsgType: tds.TDS_BUF_RESPONSE, Status: tds.PacketHeaderStatus(p.Status), Length: uint16(8 + len(p.Body))}, Data: p.Body})
+		packets := rc.Packetise(stream, r.Cuts, rc.BufResponse, 0)
+		for i, p := range packets {
+			if r.Send && r.SendAfter > 0 && (i == r.SendAfter || (i == 0 && r.SendAfter >= len(packets))) {
+				// the client's send call returns only now, with the response partly arrived
+				if f := send(); f != nil {
+					return f
+				}
+				vh.Label("send-completes-after-first-response-packets")
+			}
+			st := p.Status
+			if len(r.Extra) > 0 {
+				st |= byte(r.Extra[i%len(r.Extra)])
+			}
+			ch.WritePacket(&tds.Packet{Header: tds.PacketHeader{MsgType: tds.TDS_BUF_RESPONSE, Status: tds.PacketHeaderStatus(st), Length: uint16(8 + len(p.Body))}, Data: p.Body})
 		}
 		model, synthetic := respgen.Deliver(r.Pkgs)
 		fmts := respgen.FormatBefore(model)
@@ -264,6 +288,12 @@ func genRound(rt *rapid.T) round {
 	stream, _, _, _ := rc.EncodeStream(r.Pkgs)
 	if rapid.Bool().Draw(rt, "fragment") {
 		r.Cuts = respgen.Cuts(rt, len(stream), true)
+	}
+	if r.Send && rapid.IntRange(0, 2).Draw(rt, "sendlate") == 0 {
+		r.SendAfter = rapid.IntRange(1, 3).Draw(rt, "sendafter")
+	}
+	if rapid.IntRange(0, 2).Draw(rt, "extrabits") == 0 {
+		r.Extra = rapid.SliceOfN(rapid.SampledFrom([]int{0, 0x02, 0x08, 0x0a}), 1, 3).Draw(rt, "extra")
 	}
 	r.Strategy = rapid.SampledFrom([]string{"next", "until", "until", "nilcb"}).Draw(rt, "strategy")
 	if r.Strategy == "until" {
